@@ -127,6 +127,43 @@ impl RetryPolicyWrapper {
     }
 }
 
+/// Verification hooks (only with `--cfg sozu_verif`): put a policy into the
+/// "down" / "waiting" states without sleeping through real back-off windows.
+#[cfg(sozu_verif)]
+impl ExponentialBackoffPolicy {
+    /// Force `current_tries`, the back-off `wait` and how long ago the last
+    /// try happened (`last_try = now - elapsed`).
+    pub fn verif_set(&mut self, current_tries: usize, wait: time::Duration, elapsed: time::Duration) {
+        self.current_tries = cmp::min(current_tries, self.max_tries);
+        self.wait = wait;
+        self.last_try = time::Instant::now()
+            .checked_sub(elapsed)
+            .unwrap_or_else(time::Instant::now);
+    }
+
+    /// `(current_tries, wait)` for canonical dumps.
+    pub fn verif_get(&self) -> (usize, time::Duration) {
+        (self.current_tries, self.wait)
+    }
+}
+
+#[cfg(sozu_verif)]
+impl RetryPolicyWrapper {
+    /// Forwarder for [`ExponentialBackoffPolicy::verif_set`].
+    pub fn verif_set(&mut self, current_tries: usize, wait: time::Duration, elapsed: time::Duration) {
+        match self {
+            RetryPolicyWrapper::ExponentialBackoff(p) => p.verif_set(current_tries, wait, elapsed),
+        }
+    }
+
+    /// Forwarder for [`ExponentialBackoffPolicy::verif_get`].
+    pub fn verif_get(&self) -> (usize, time::Duration) {
+        match self {
+            RetryPolicyWrapper::ExponentialBackoff(p) => p.verif_get(),
+        }
+    }
+}
+
 impl From<ExponentialBackoffPolicy> for RetryPolicyWrapper {
     fn from(val: ExponentialBackoffPolicy) -> Self {
         RetryPolicyWrapper::ExponentialBackoff(val)
